@@ -136,7 +136,7 @@ pub fn main() {
         exit(2)
     };
     let t0 = std::time::Instant::now();
-    let budget: f64 = std::env::var("VX_L_BUDGET").ok().and_then(|s| s.parse().ok()).unwrap_or(if tier == "quick" { 30.0 } else { 300.0 });
+    let budget: f64 = std::env::var("VX_L_BUDGET").ok().and_then(|s| s.parse().ok()).unwrap_or(if tier == "quick" { 24.0 } else { 300.0 });
     let jobs: usize = std::env::var("VX_JOBS").ok().and_then(|s| s.parse().ok()).unwrap_or(16);
     let exe = std::env::current_exe().unwrap();
     let selected: Vec<usize> = (0..its.len()).filter(|i| tier != "quick" || !its[*i].thorough_only).collect();
